@@ -168,3 +168,55 @@ let contains (s : string) (sub : string) : bool =
   try ignore (Str.search_forward (Str.regexp_string sub) s 0); true with Not_found -> false
 
 let run_tag (r : run) = Printf.sprintf "%s/%s/%s/%s" r.r_profile r.r_mode r.r_simp r.r_session
+
+(* ---- the witness extraction (Model.get_witness, C03_bmc_witness_accepted) against a Fail run ----
+   [queries]: the get-value calls recorded by the harness, (q EXPR VALUE) in call order.  The model says
+   which symbols are queried in which order (bad states at the last step, states at step 0, inputs at the
+   steps 0..k); given the recorded values for those symbols it must assemble exactly the witness the
+   implementation returned.  [exact_bad_names]: the step symbols of the bad states are compared too (not
+   for runs on the simplified copy: the names of its internal signals are not in the case). *)
+let witness_tie ?(exact_bad_names = true) (sy : sys) (nm : expr -> char list) (wx : Sexp.t) (queries : Sexp.t list) : string option =
+  let w = witness_of_sexp wx in
+  let steps = List.length w.w_inputs in
+  if steps = 0 then Some "the implementation's witness has no input step"
+  else begin
+    let k = n_of_int (steps - 1) in
+    let en = enc_new sy nm in
+    let rec_q = List.map (function
+        | Sexp.List [Sexp.Atom "q"; e; v] -> (expr_of_sexp e, val_of_sexp v)
+        | x -> raise (Sexp.Parse_error ("bad query " ^ Sexp.to_string x))) queries in
+    match witness_query_list en k with
+    | None -> Some "the model's get_witness panics in get_signal_at, the implementation returned a witness"
+    | Some mq ->
+        if List.length mq <> List.length rec_q then
+          Some (Printf.sprintf "the model queries %d symbols, the implementation made %d get-value calls" (List.length mq) (List.length rec_q))
+        else begin
+          let nb = List.length sy.s_bads in
+          let mism = List.filteri (fun i (m, (e, _)) -> (exact_bad_names || i >= nb) && m <> e) (List.combine mq rec_q) in
+          match mism with
+          | (m, (e, _)) :: _ ->
+              Some (Printf.sprintf "queried symbols differ: the model asks for %s where the implementation asked for %s"
+                      (Sexp.to_string (sexp_of_expr m)) (Sexp.to_string (sexp_of_expr e)))
+          | [] ->
+              if List.exists (fun (_, v) -> v = None) rec_q then Some "a recorded value is missing"
+              else begin
+                let tab = List.map (fun (m, (_, v)) -> (m, match v with Some x -> x | None -> VB N0)) (List.combine mq rec_q) in
+                let gv s = match List.find_opt (fun (m, _) -> expr_eqb m s) tab with Some (_, v) -> v | None -> VB N0 in
+                match get_witness en gv k with
+                | None -> Some "the model's get_witness gives no witness for the recorded values (array value for a bad state)"
+                | Some wm ->
+                    if wm = w then None
+                    else
+                      let part =
+                        if wm.w_failed <> w.w_failed then "failed"
+                        else if wm.w_init <> w.w_init then "init"
+                        else if wm.w_init_names <> w.w_init_names then "init_names"
+                        else if wm.w_inputs <> w.w_inputs then "inputs"
+                        else "input_names" in
+                      Some (Printf.sprintf "the model assembles another witness from the recorded values (field %s)" part)
+              end
+        end
+  end
+
+let queries_of_fail (rest : Sexp.t list) : Sexp.t list option =
+  List.find_map (function Sexp.List (Sexp.Atom "queries" :: qs) -> Some qs | _ -> None) rest
